@@ -67,6 +67,17 @@ Theorem last_nonempty : forall s parts p rep ts,
 Proof. exact last_nonempty_pf. Qed.
 Print Assumptions last_nonempty.
 
+(* nothing but separators is dropped, at the level of characters: removing whitespace, ties,
+   commas and backslashes (Spec/Names.v content) from the parts, taken in the order of the name
+   form, gives the same as removing them from the name -- no character lost, duplicated or reordered *)
+Theorem chars_preserved : forall s parts p rep,
+  split_tex_comma (strip s) = Ok parts -> person_of_string s = Ok (p, rep) ->
+  (length parts <= 1 -> content (concat (p_first p ++ p_middle p ++ p_prelast p ++ p_last p)) = content s) /\
+  (2 <= length parts ->
+     content (concat ((p_prelast p ++ p_last p) ++ p_lineage p ++ (p_first p ++ p_middle p))) = content s).
+Proof. exact chars_preserved_pf. Qed.
+Print Assumptions chars_preserved.
+
 (* non-vacuity *)
 Example ex_form0 :
   split_tex_comma (strip (s2l "Jean de la Fontaine du Bois Joli")) = Ok [s2l "Jean de la Fontaine du Bois Joli"] /\
